@@ -24,7 +24,8 @@ Export ==
 \* alphabets (DESIGN.md appendix D)
 Conc == JsonDeserialize("concrete.json")
 NEL == Conc.wide[4].p           \* U+0085: a line break to str.splitlines(), not to a count of "\n"
-MarkupBreaks == <<"{{", "}}", "{%", "%}", "if x", "x", "'", "\r", "\n", NEL, "\f">>
+BOM == Conc.wide[9].p           \* U+FEFF: a character like any other to the scanner (a file saved with a byte order mark)
+MarkupBreaks == <<"{{", "}}", "{%", "%}", "if x", "x", "'", "\r", "\n", NEL, "\f", BOM>>
 Markup == <<"{{", "}}", "{%", "%}", "{#", "#}", "#", "-", "~", "raw", "endraw", "comment", "endcomment",
             "liquid", "if x", "endif", "ab", " ", "\n", "{", "}", "%", "'", "\"", "\\", "x", "1">>
 Expr == <<"x", "and", "or", "not", "in", "contains", "if", "else", "with", "for", "as", "nil", "true",
